@@ -312,9 +312,13 @@ type c15Real struct {
 	manif map[int]*manifest.Manifest
 }
 
-func c15NewReal() *c15Real {
+func c15NewReal() *c15Real { return c15NewRealT(c15Groups, nil) }
+
+// c15NewRealT: an execution with its own contract table; onLookup (if set) is called inside every contract lookup
+// (the natural yield point of an evaluation) before it answers
+func c15NewRealT(table map[int][]int, onLookup func()) *c15Real {
 	r := &c15Real{n: c15StubNames(), manif: map[int]*manifest.Manifest{}}
-	for id, gs := range c15Groups {
+	for id, gs := range table {
 		m := manifest.NewManifest(fmt.Sprintf("X%d", id))
 		for _, g := range gs {
 			m.Groups = append(m.Groups, manifest.Group{PublicKey: r.n.group[g]})
@@ -322,10 +326,13 @@ func c15NewReal() *c15Real {
 		r.manif[id] = m
 	}
 	byHash := map[util.Uint160]int{}
-	for id := range c15Groups {
+	for id := range table {
 		byHash[r.n.hash[id]] = id
 	}
 	getContract := func(_ *dao.Simple, h util.Uint160) (*state.Contract, error) {
+		if onLookup != nil {
+			onLookup()
+		}
 		id, ok := byHash[h]
 		if !ok {
 			return nil, errors.New("contract not found")
@@ -542,6 +549,91 @@ func (lv *c15Live) run(co *caseOut, in c15LiveIn) {
 	}
 	co.add("live", fmt.Sprintf("%s/res%d", in.Shape, res), res != 2, in, res,
 		fmt.Sprintf("CLive %s %d %d %d %s %s %d", c15CoqSigners(in.Ops), in.H, x.cal, x.cur, coqBool(x.be), coqBool(x.rs), res))
+}
+
+// ---------- two executions at once ----------
+
+type c15ConcIn struct {
+	Ops   []c15Signer `json:"ops"`    // signers of execution #1 (account 5): a Rules signer whose conditions need contract lookups
+	Yield int         `json:"yield"`  // execution #1 is parked inside its Yield-th contract lookup (1-based)
+	Ctx1  int         `json:"ctx1"`   // index of execution #1's call context in c15ConcCtx
+	Ops2  []c15Signer `json:"ops2"`   // signers of execution #2 (account 5)
+	Ctx2  int         `json:"ctx2"`   // its call context
+}
+
+// the two executions have DIFFERENT contract tables for the same hashes (groups swapped), so that any state leaking
+// from one into the other changes an answer
+var c15ConcTable1 = map[int][]int{1: {1}, 2: {2}, 3: {}}
+var c15ConcTable2 = map[int][]int{1: {2}, 2: {1}, 3: {1, 2}}
+var c15ConcCtx = []c15Ctx{{9, 1, true, true}, {2, 1, false, true}, {1, 2, false, true}, {9, 2, true, true}, {3, 3, false, true}}
+
+func c15TableCoq(t map[int][]int) string {
+	var xs []string
+	for _, id := range []int{1, 2, 3} {
+		xs = append(xs, fmt.Sprintf("(%d, %s)", id, c15Ints(t[id])))
+	}
+	return coqList(xs)
+}
+
+func c15SignersEqual(a, b []transaction.Signer) bool {
+	ja, _ := json.Marshal(a)
+	jb, _ := json.Marshal(b)
+	return string(ja) == string(jb) && len(a) == len(b)
+}
+
+func c15RunConc(co *caseOut, in c15ConcIn) {
+	if in.Ctx1 < 0 || in.Ctx1 >= len(c15ConcCtx) || in.Ctx2 < 0 || in.Ctx2 >= len(c15ConcCtx) {
+		return
+	}
+	x1, x2 := c15ConcCtx[in.Ctx1], c15ConcCtx[in.Ctx2]
+	// sequential answers: each execution alone, on fresh contexts
+	s1 := c15NewRealT(c15ConcTable1, nil)
+	s2 := c15NewRealT(c15ConcTable2, nil)
+	sg1, sg2 := s1.n.signers(in.Ops), s2.n.signers(in.Ops2)
+	h := s1.n.hash[5]
+	seq1 := s1.check(x1, sg1, h)
+	seq2 := s2.check(x2, sg2, h)
+	// interleaved: #1 parks inside its Yield-th lookup, #2 runs completely, #1 resumes
+	parked, release := make(chan struct{}), make(chan struct{})
+	nlook := 0
+	didPark := false
+	e1 := c15NewRealT(c15ConcTable1, func() {
+		nlook++
+		if nlook == in.Yield {
+			didPark = true
+			parked <- struct{}{}
+			<-release
+		}
+	})
+	e2 := c15NewRealT(c15ConcTable2, nil)
+	c1sg, c2sg := e1.n.signers(in.Ops), e2.n.signers(in.Ops2)
+	keep1, keep2 := e1.n.signers(in.Ops), e2.n.signers(in.Ops2)
+	done := make(chan int, 1)
+	go func() { done <- e1.check(x1, c1sg, h) }()
+	con1, con2 := -1, -1
+	select {
+	case <-parked:
+		con2 = e2.check(x2, c2sg, h)
+		release <- struct{}{}
+		con1 = <-done
+	case con1 = <-done: // fewer lookups than Yield: nothing to interleave with
+		con2 = e2.check(x2, c2sg, h)
+	}
+	if con1 != seq1 || con2 != seq2 {
+		co.violation("conc", fmt.Sprintf("witness answers depend on a concurrent execution: alone %d / %d, interleaved %d / %d (0 refused, 1 granted, 2 fault)", seq1, seq2, con1, con2), in, []int{seq1, seq2, con1, con2})
+	}
+	if !c15SignersEqual(c1sg, keep1) || !c15SignersEqual(c2sg, keep2) || !c15SignersEqual(sg1, keep1) {
+		co.violation("conc", "the signer list was modified by the check", in, nil)
+	}
+	tag := "no-park"
+	if didPark {
+		tag = fmt.Sprintf("parked@%d", in.Yield)
+	}
+	// each execution's answer against the model/spec on ITS OWN context and table
+	co.add("conc", tag+"/exec1", didPark, in, []int{seq1, seq2, con1, con2},
+		fmt.Sprintf("CLiveT %s %s 5 %d %d %s %s %d", c15TableCoq(c15ConcTable1), c15CoqSigners(in.Ops), x1.cal, x1.cur, coqBool(x1.be), coqBool(x1.rs), con1))
+	co.add("conc", tag+"/exec2", didPark, in, []int{seq1, seq2, con1, con2},
+		fmt.Sprintf("CLiveT %s %s 5 %d %d %s %s %d", c15TableCoq(c15ConcTable2), c15CoqSigners(in.Ops2), x2.cal, x2.cur, coqBool(x2.be), coqBool(x2.rs), con2))
 }
 
 // ---------- a contract changes its own groups (update / destroy) and then the witness is checked ----------
@@ -804,6 +896,10 @@ func runC15(cmd string, args []string) error {
 				var in c15ScopeIn
 				json.Unmarshal(x.Input, &in)
 				c15RunScope(co, real, in)
+			case "conc":
+				var in c15ConcIn
+				json.Unmarshal(x.Input, &in)
+				c15RunConc(co, in)
 			case "selfcw":
 				var in c15SelfIn
 				json.Unmarshal(x.Input, &in)
@@ -950,6 +1046,47 @@ func runC15(cmd string, args []string) error {
 				c15RunScope(co, real, c15ScopeIn{Ops: l, H: h})
 			}
 		}
+		// two executions with different contract tables: #1 (a Rules signer with >= 2 conditions needing lookups) is parked
+		// inside its k-th contract lookup while #2 runs completely
+		{
+			g := func(n int) *c15Cond { return &c15Cond{T: "g", G: n} }
+			cbg := func(n int) *c15Cond { return &c15Cond{T: "cbg", G: n} }
+			nt := func(c *c15Cond) *c15Cond { return &c15Cond{T: "not", C: c} }
+			and := func(l ...*c15Cond) *c15Cond { return &c15Cond{T: "and", L: l} }
+			or := func(l ...*c15Cond) *c15Cond { return &c15Cond{T: "or", L: l} }
+			rules1 := [][]c15Rule{
+				{{false, g(2)}, {true, g(1)}},
+				{{false, cbg(1)}, {true, cbg(2)}},
+				{{true, and(g(1), cbg(2))}},
+				{{true, and(cbg(2), g(1))}},
+				{{false, or(g(2), cbg(1))}, {true, &c15Cond{T: "cbe"}}},
+				{{true, and(nt(g(2)), nt(cbg(1)), g(1))}},
+				{{false, g(2)}, {false, cbg(1)}, {true, &c15Cond{T: "sh", H: 1}}},
+				{{true, or(and(g(2), cbg(2)), and(g(1), nt(cbg(1))))}},
+			}
+			ops2 := [][]c15Signer{
+				{{Acct: 5, Scopes: 64, Rules: []c15Rule{{false, g(2)}, {true, g(1)}}}},
+				{{Acct: 5, Scopes: 64, Rules: []c15Rule{{true, and(cbg(1), nt(g(2)))}}}},
+				{{Acct: 5, Scopes: 32, Groups: []int{1}}},
+				{{Acct: 5, Scopes: 33, Groups: []int{2}}},
+				{{Acct: 5, Scopes: 1}},
+			}
+			for _, rl := range rules1 {
+				for _, withGroups := range []bool{false, true} {
+					s1 := c15Signer{Acct: 5, Scopes: 64, Rules: rl}
+					if withGroups { // the CustomGroups lookup comes first, then the rules
+						s1.Scopes, s1.Groups = 96, []int{2}
+					}
+					for yield := 1; yield <= 3; yield++ {
+						for i2, o2 := range ops2 {
+							for c1 := 0; c1 < 3; c1++ {
+								c15RunConc(co, c15ConcIn{Ops: []c15Signer{s1}, Yield: yield, Ctx1: c1, Ops2: o2, Ctx2: (c1 + i2 + 1) % len(c15ConcCtx)})
+							}
+						}
+					}
+				}
+			}
+		}
 		// a contract updates / destroys itself and then the witness is checked, before and after Domovoi
 		for stage := 0; stage <= 1; stage++ {
 			for _, hp := range []string{"HG", "HP"} {
@@ -963,7 +1100,7 @@ func runC15(cmd string, args []string) error {
 			}
 		}
 		co.extra["exhaustive"] = true
-		co.extra["x_universe"] = "selfcw: {before, after Domovoi} x {contract in / not in the group} x {no change, update toggling the group, destroy} x {check by the contract itself, by a callee, by its caller afterwards} x {CustomGroups, Rules Group / CalledByGroup / Not Group / Not CalledByGroup}; " + "98 call contexts (entry; called-by-entry and deeper: current in 4 contracts x calling in {zero,4 contracts,entry} x ReadStates yes/no; the contracts' groups are {1},{1,2},{},{2}); " +
+		co.extra["x_universe"] = "conc: 8 rule lists (x with/without a CustomGroups lookup first) x yield point = 1st/2nd/3rd contract lookup x 5 scopes of the other execution x 3 call contexts, the two executions having swapped group tables; selfcw: {before, after Domovoi} x {contract in / not in the group} x {no change, update toggling the group, destroy} x {check by the contract itself, by a callee, by its caller afterwards} x {CustomGroups, Rules Group / CalledByGroup / Not Group / Not CalledByGroup}; " + "98 call contexts (entry; called-by-entry and deeper: current in 4 contracts x calling in {zero,4 contracts,entry} x ReadStates yes/no; the contracts' groups are {1},{1,2},{},{2}); " +
 			"cond (stub context): all trees of height <= 2 over 19 leaves with Not and unary/binary And/Or, and all unary wrappers of those (height 3); " +
 			"real path (CheckHashedWitness, Rules signer): all those trees of height <= 2 as Allow rule and as Deny rule followed by Allow-all; all And/Or of a current-side and a calling-side group condition (plain or negated) with a third operand in all 6 orders; all rule lists of length 2 over 16 group-relevant rules and all of length 3 that ask about both the current and the calling contract's groups; thorough: all lists of length 3, all unary wrappers (height 3) as Allow rule, and the height <= 2 trees through the stub context too; " +
 			"scope: all 16 combinations of the scope bits + Global x allowed-contract subsets x allowed-group subsets x 12 rule lists; 54 signer-list shapes"
